@@ -32,6 +32,8 @@
 (*   END run() returned / raised:     r, cat, names, closed (event loop    *)
 (*       closed), pend / pendnames (tasks pending when it was closed)      *)
 (*   STOP  a simulator received stop/finalize: s                           *)
+(*   LOG   mosaik logged a warning: cat in {"too_slow","event_after_end"}, *)
+(*         w (wall clock, ticks)                                           *)
 (*   FAULT the harness made a simulator fail: s, kind                      *)
 (***************************************************************************)
 EXTENDS Tiered, TLC
@@ -68,6 +70,8 @@ WaitIvs(sc, c) == (IF c.data THEN {ConnIv(sc, c)} ELSE {})
                   \cup (IF c.async THEN {AdaptIv(sc, c.src, c.dst)} ELSE {})
 
 HasSubsteps(sc) == \E s \in Sids(sc) : DepthOf(sc, s) > 1
+\* real-time mode: sc.rt = [on, K (wall-clock ticks per simulation step), strict, instant (all replies take no time)]
+RT(sc) == IF "rt" \in DOMAIN sc THEN sc.rt ELSE [on |-> FALSE, K |-> 0, strict |-> FALSE, instant |-> FALSE]
 
 \* Optional switches (used by exhaustive configs of MosaikSched to shrink the state space):
 \* without the data history the C03 oracle is not evaluated, without the cause history C07 is not.
@@ -92,6 +96,7 @@ InitH(sc) ==
    mal   |-> None,                          \* <<sim, what>> after a malformed reply
    fault |-> None,                          \* <<sim, kind>> after an injected simulator failure
    stops |-> [s \in Sids(sc) |-> 0],        \* stop/finalize calls received
+   slow  |-> 0, warned |-> 0, expwarn |-> 0, \* real-time: too-slow reports, ignored-event warnings seen / expected
    dead  |-> FALSE]                         \* bookkeeping impossible after a C02 failure
 
 Viol(c, d) == <<[c |-> c, d |-> d]>>
@@ -224,11 +229,13 @@ RefSB(sc, h, ev) ==
             ELSE IF HasSubsteps(sc) /\ C03okI(sc, h, s, tau, inp)
               THEN Viol("C03_inputs__sig_integer_time_data_plane", <<s, tau>>)
               ELSE Viol("C03_inputs", <<s, tau, inp, [i \in InConns(sc, s) |-> Expect(sc, h, i, tau)], SetdFor(h, s)>>))
-        \o Cond(~CauseOn(sc) \/ C07ok(sc, h, s, t, ev.m, cs), "C07_max_advance", <<s, t, ev.m, h.prom[s], cs>>)
+        \o Cond(~CauseOn(sc) \/ RT(sc).on \/ C07ok(sc, h, s, t, ev.m, cs), "C07_max_advance", <<s, t, ev.m, h.prom[s], cs>>)
         \o Cond(C16order(sc, h, s, tau), "C16_async_order", <<s, tau, h.infl>>)
         \o Cond(C10ok(sc, h, s, tau), "C10_lazy", <<s, tau, h.dem, h.infl>>)
         \o Cond(~OverLoop(sc, tau), "C09_substep_beyond_bound_executed", <<s, tau>>)
         \o Cond(h.mal = None \/ h.mal[1] # s, "C13_step_after_malformed_reply", <<s, t, h.mal>>)
+        \* C17: a step for time t never begins before K*(t-1) wall-clock ticks after the start
+        \o (IF RT(sc).on THEN Cond(ev.w >= RT(sc).K * (t - 1), "C17_step_begins_too_early", <<s, t, ev.w, RT(sc).K>>) ELSE NoV)
       evIn == {i \in InConns(sc, s) : ~Conn(sc, i).pers}
   IN [h |-> [h EXCEPT !.dem[s] = @ \ {tau},
                       !.nd[s] = @ + 1,
@@ -296,6 +303,22 @@ RefCB(sc, h, ev) ==
   ELSE IF ev.f = "get_data" THEN
      LET allowed == \A d \in ev.arg : AsyncAllowed(sc, d, ev.s)
      IN [h |-> h, v |-> Cond(allowed <=> ev.res = "ok", "C16_refusal", <<ev.s, ev.arg, ev.res>>)]
+  ELSE IF ev.f = "set_event" THEN
+     \* C17: outside real-time mode an error to the caller; otherwise a step at t is demanded if t < until,
+     \* and an event at or after until is ignored with a warning
+     LET s == ev.s  t == ev.arg  on == RT(sc).on
+         sched == on /\ ev.res = "ok" /\ t < sc.until /\ t >= 0
+     IN [h |-> [h EXCEPT !.dem[s] = IF sched THEN @ \cup {Flat(sc, s, t)} ELSE @,
+                         !.expwarn = IF on /\ ev.res = "ok" /\ t >= sc.until THEN @ + 1 ELSE @],
+         v |-> Cond(on => ev.res = "ok", "C17_set_event_failed_in_real_time_mode", <<s, t, ev.res>>)
+               \o Cond((~on) => ev.res = "SimulationError", "C17_set_event_outside_real_time_mode_not_refused", <<s, t, ev.res>>)]
+  ELSE [h |-> h, v |-> NoV]
+
+RefLOG(sc, h, ev) ==
+  IF ev.cat = "too_slow" THEN
+     [h |-> [h EXCEPT !.slow = @ + 1],
+      v |-> Cond(~RT(sc).instant, "C17_instant_run_reported_too_slow", <<ev.w>>)]
+  ELSE IF ev.cat = "event_after_end" THEN [h |-> [h EXCEPT !.warned = @ + 1], v |-> NoV]
   ELSE [h |-> h, v |-> NoV]
 
 \* C14: a simulator failed (FAULT event: the harness closed its connection, made it raise, ...).
@@ -320,6 +343,10 @@ RefEND(sc, h, ev) ==
               Cond(ev.r # "ok", "C13_malformed_reply_accepted", <<h.mal, ev.r>>)
               \o Cond(ev.r = "ok" \/ h.mal[1] \in ev.names, "C13_error_does_not_identify_simulator", <<h.mal, ev.r, ev.cat, ev.names>>)
            ELSE IF ev.r = "ok" THEN Cond(~lost, "C02_lost_step", h.dem)
+                                     \o Cond(h.warned >= h.expwarn, "C17_event_after_end_ignored_without_warning", <<h.warned, h.expwarn>>)
+           ELSE IF ev.cat = "too_slow" THEN         \* RuntimeError of rt_strict
+              Cond(RT(sc).on /\ RT(sc).strict, "C17_too_slow_error_without_rt_strict", <<ev.r>>)
+              \o Cond(~RT(sc).instant, "C17_instant_run_reported_too_slow", <<"rt_strict">>)
            ELSE IF ev.cat = "loop_guard" THEN Cond(guardJust, "C09_guard_fired_without_cause", <<ev.names, h.dem>>)
            ELSE IF ev.cat = "cycle" THEN            \* rejected by the cycle check: C06 judges whether rightly so
               Cond(\A s \in Sids(sc) : h.nd[s] = 0, "C06_step_before_rejection", h.nd)
@@ -333,6 +360,7 @@ RefStep(sc, h, ev) ==
          [] ev.k = "DE"  -> RefDE(sc, h, ev)
          [] ev.k = "CB"  -> RefCB(sc, h, ev)
          [] ev.k = "END" -> RefEND(sc, h, ev)
+         [] ev.k = "LOG" -> RefLOG(sc, h, ev)
          [] ev.k = "STOP" -> [h |-> [h EXCEPT !.stops[ev.s] = @ + 1], v |-> NoV]
          [] ev.k = "FAULT" -> [h |-> [h EXCEPT !.fault = IF @ = None THEN <<ev.s, ev.kind>> ELSE @], v |-> NoV]
          [] OTHER        -> [h |-> h, v |-> NoV]
